@@ -69,7 +69,9 @@ class HistogramND(HistogramBase):
             )
 
         # Missed values
-        self._missed = np.asarray(missed, dtype=self.dtype).reshape(1)
+        self._missed = np.asarray(
+            missed, dtype=self._missed_dtype(self.dtype)
+        ).reshape(1)
 
     @property
     def bins(self) -> List[np.ndarray]:
@@ -535,7 +537,7 @@ class HistogramND(HistogramBase):
             return False
         if not np.allclose(other.frequencies, self.frequencies):
             return False
-        if not other.missed == self.missed:
+        if not np.allclose(other.missed, self.missed, equal_nan=True):
             return False
         if not other.name == self.name:
             return False
